@@ -28,8 +28,8 @@ structure SCol where
   col : ColDef
   /-- name in the original table (none for an added column) -/
   orig : Option String
-  /-- type tokens it was changed to, oldest first -/
-  retyped : List String := []
+  /-- (type token, type family) of every requested retype, oldest first -/
+  retyped : List (String × String) := []
   deriving Repr
 
 structure STable where
@@ -121,7 +121,7 @@ def specOp (t : STable) : BatchOp → Except SErr STable
     | none => .error .undefined
     | some cur =>
       let t := match newType with
-        | some (ty, aff) => t.mapCol cur (fun c => { c with col := { c.col with ty := ty, aff := aff }, retyped := c.retyped ++ [ty] })
+        | some (ty, aff) => t.mapCol cur (fun c => { c with col := { c.col with ty := ty, aff := aff }, retyped := c.retyped ++ [(ty, aff)] })
         | none => t
       let t := match nullable with
         | some b => t.mapCol cur (fun c => { c with col := { c.col with nullable := b } })
@@ -184,12 +184,20 @@ def specApply (t : STable) : List BatchOp → Except SErr STable
 
 /-! ## values -/
 
-/-- the values a retyped cell may hold: SQLite's conversion of the original value to the new type,
-    through an explicit `CAST` or by being stored into the retyped column -/
-def allowedValues (ct : ConvTable) (c : SCol) (srcTy : String) (v : Value) : List Value :=
+/-- The values a retyped cell may hold.  "Converted if its type was changed" is SQLite's conversion to the new type:
+    * a change to another **type family** (the `aff` token: SQLAlchemy's `_type_affinity` of the old and the new type, part of
+      the input, e.g. Numeric -> Integer, String -> Integer) must be SQLite's `CAST(old AS <new type>)`, stored into the new
+      column — with its storage class: `3.7` becomes INTEGER `3`, not REAL `3.7` kept by a cast-free copy;
+    * a change within one family (VARCHAR(20) -> TEXT, INTEGER -> BIGINT, FLOAT -> NUMERIC) or to JSON (text must be kept as it
+      is) may also be the cast-free copy stored into the retyped column.
+    Values are compared with their storage class (`int` / `real` / `text` / `blob`). -/
+def allowedValues (ct : ConvTable) (c : SCol) (srcTy srcAff : String) (v : Value) : List Value :=
   if c.retyped.isEmpty && c.col.ty == srcTy then [v]
   else
-    let chain := c.retyped.foldl (fun s ty => s ++ s.map (convert ct ty true)) [v]
+    let chain := (c.retyped.foldl (fun (acc : List Value × String) (t : String × String) =>
+        let casted := acc.1.map (convert ct t.1 true)
+        if t.2 != acc.2 && t.2 != "JSON" then (casted, t.2)        -- another family: the CAST is mandatory
+        else (acc.1 ++ casted, t.2)) ([v], srcAff)).1
     (if c.col.ty == srcTy then chain else []) ++ chain.map (convert ct c.col.ty false)
 
 /-- columns whose values must be carried over: surviving original columns that are not generated (a generated
@@ -199,7 +207,8 @@ def carried (c : SCol) : Option String := if c.col.computed.isSome then none els
 /-- for one original row: per carried column (in spec order) the allowed values -/
 def expectedRow (ct : ConvTable) (before : Schema) (t : STable) (r : Row) : List (List Value) :=
   t.cols.filterMap (fun c => (carried c).map (fun o =>
-    allowedValues ct c ((srcType before.cols o).getD "") (cell before.cols r o)))
+    allowedValues ct c ((srcType before.cols o).getD "") (((before.cols.find? (·.name == o)).map (·.aff)).getD "")
+      (cell before.cols r o)))
 
 def actualRow (after : Schema) (t : STable) (r : Row) : Row :=
   t.cols.filterMap (fun c => (carried c).map (fun _ => cell after.cols r c.col.name))
